@@ -36,6 +36,15 @@ CHECKS = {
  'C18': ('exploration', 'hx+ovl', 'must-accept/must-reject predicates over structurally mutated YAML; accepted sets exercised (hash+verify); reload monitor',
          'Hundreds of YAML documents derived from valid configurations by field deletion, duplication, type change, unknown keys and numeric edges are loaded; the verdict must match the rule the generator broke, and every accepted parameter set must hash-and-verify or fail with an error (panic/hang = violation).',
          'Parameter values needing > 256 MiB or unbounded time are not generated; duplicate ids unasserted.', '5 C18'),
+ 'C08': ('fault_enumeration', 'sctrace+hx', 'real SIGKILL at every syscall boundary (strace injection) + offline persistence-model enumeration of post-crash states, each judged by a fresh-process recovery oracle; concurrent raw readers',
+         'For every add/update/init scenario the operation is killed for real on entry to every file-system-relevant syscall (boundary coverage is measured and every boundary is hit), and an offline model of the stated persistence semantics enumerates, at every boundary, every combination of lost/kept pending directory operations and unsynced data prefixes; each distinct state is materialised and judged by a fresh process (old-complete / new-complete / absent / empty reservation, passwords, other files, consistency check, residue). The simulator is cross-checked against the real post-kill directories. A separate writer process is raced by raw readers.',
+         'Relative to the persistence model written in the property; kill points inside a syscall and torn sector writes are not observable; exhaustive over the boundaries of the traced executions, not over all executions.', '5 C08'),
+ 'C09': ('fault_enumeration', 'sctrace', 'persistence-model enumeration of post-acknowledgement crash states from the recorded syscall trace + write/fsync/rename ordering monitor',
+         'For every successful mutating operation the recorded syscalls are replayed into the persistence model and every state reachable after the acknowledgement (any subset of not-yet-fsynced entry operations lost) is materialised and must show the change; an ordering monitor checks fsync(file) before the rename and fsync(base) before the acknowledgement.',
+         'Relative to the stated persistence model and the syscalls of one traced execution per scenario.', '5 C09'),
+ 'C15': ('fault_enumeration', 'sctrace', 'every-single-fault injection at syscall level (strace error injection) with a fresh-process byte-identity oracle; syscall monitor for read-only calls',
+         'For each mutating scenario every syscall between the markers that can fail is made to fail once with each applicable errno (ENOSPC, EIO, EACCES, EMFILE); a reported failure must leave the store byte-identical, a reported success must be complete; hostile auxiliary data must survive updates byte for byte, set-admin must keep the inode; semantically failing and read-only calls must issue no mutating syscall on the store and leave it byte- and inode-identical.',
+         'Single faults only; the fault is injected at the syscall boundary (the syscall does not execute). Known findings listed in known-findings.json.', '5 C15'),
 }
 
 def main():
